@@ -228,7 +228,8 @@ func (e *refusedNonFinal) Error() string { return e.msg }
 
 // inReorgTimeLockClass is the class predicate of the open finding C12-reorg-median-time-back, over the
 // generated case only: the history holds a transaction with a time-based lock that is final when it is
-// built (pool spec Lock 2 or a block transaction of the engine with Lock 2) and, later, a block operation
+// built (pool spec Lock 2 or a block transaction of the engine with Lock 2) or a pool transaction with a BIP68
+// relative lock (version 2, input selector Seq 3..8) and, later, a block operation
 // that builds on something else than the tip (a fork that can become a reorganisation) or a deep
 // reorganisation.
 func inReorgTimeLockClass(c Case) bool {
@@ -236,6 +237,13 @@ func inReorgTimeLockClass(c Case) bool {
 	for _, op := range c.Ops {
 		if op.Tx != nil && op.Tx.Lock == 2 {
 			locked = true
+		}
+		if op.Tx != nil && op.Tx.Ver != 1 {
+			for _, in := range op.Tx.Ins {
+				if q := mod(in.Seq, 9); q >= 3 {
+					locked = true // a BIP68 relative lock
+				}
+			}
 		}
 		if locked && op.K == "deepreorg" {
 			return true
@@ -399,6 +407,8 @@ func (r *run) exec(op Op) error {
 		return r.mine(op)
 	case "deepreorg":
 		return r.deepReorg(op)
+	case "ladder":
+		return r.ladder(op)
 	case "tick":
 		r.tick(op)
 	case "save":
@@ -603,6 +613,114 @@ func (r *run) outScript(o sim.OutSpec) []byte {
 
 var seqTable = []uint32{0xffffffff, 0xfffffffe, 0xfffffffd}
 
+// coinHeight: the height at which the output was mined; outputs of unconfirmed transactions count as mined in
+// the next block (Core's CheckSequenceLocks for the mempool).
+func (r *run) coinHeight(k [36]byte) uint32 {
+	if c, ok := r.s.Tip.View[k]; ok {
+		return c.Height
+	}
+	return r.s.Tip.Idx.Height + 1
+}
+
+// sequenceFor resolves the Seq selector of an input: 0..2 the table above (relative lock disabled), 3..5 a
+// height-based BIP68 lock (3: the largest value <= 6 that is reached at the next block, 4: one more than that,
+// 5: Sel mod 7), 6..8 a time-based one in 512 s units (6: the largest value <= 3 that is reached, 7: one more,
+// 8: Sel mod 4).
+func (r *run) sequenceFor(sel InSel, c coinRef) uint32 {
+	q := mod(sel.Seq, 9)
+	if q < 3 {
+		return seqTable[q]
+	}
+	tip := r.s.Tip.Idx
+	next := tip.Height + 1
+	h := r.coinHeight(c.key)
+	switch q {
+	case 3, 4:
+		d := uint32(0)
+		if next > h {
+			d = next - h
+		}
+		if q == 4 && d+1 <= 6 {
+			return d + 1
+		}
+		if d > 6 {
+			d = 6
+		}
+		return d
+	case 5:
+		return uint32(mod(sel.Sel, 7))
+	}
+	var before uint32
+	if h > 0 {
+		before = h - 1
+	}
+	anc := tip.Ancestor(before)
+	if anc == nil {
+		anc = tip
+	}
+	vmax := uint32(0)
+	if m, b := tip.MedianTimePast(), anc.MedianTimePast(); m > b {
+		vmax = (m - b) >> consensus.SeqGranularity
+	}
+	switch q {
+	case 6, 7:
+		if q == 7 && vmax+1 <= 3 {
+			return consensus.SeqTypeFlag | (vmax + 1)
+		}
+		if vmax > 3 {
+			vmax = 3
+		}
+		return consensus.SeqTypeFlag | vmax
+	}
+	return consensus.SeqTypeFlag | uint32(mod(sel.Sel, 4))
+}
+
+// hasRelativeLock: BIP68 applies to the transaction (version >= 2, some input without the disable bit).
+func hasRelativeLock(tx *wire.Tx) bool {
+	if int32(tx.Version) < 2 {
+		return false
+	}
+	for _, in := range tx.In {
+		if in.Sequence&consensus.SeqDisableFlag == 0 {
+			return true
+		}
+	}
+	return false
+}
+
+// seqLocksReached is BIP68 for a block built on parent (the rule of ref/consensus.ConnectBlock): heights[i] is
+// the height at which input i's coin was (or, for coins created in that very block / still unconfirmed, will be)
+// mined.
+func seqLocksReached(tx *wire.Tx, heights []uint32, parent *consensus.Index) bool {
+	if int32(tx.Version) < 2 {
+		return true
+	}
+	height := parent.Height + 1
+	minHeight, minTime := int64(-1), int64(-1)
+	for j, in := range tx.In {
+		if in.Sequence&consensus.SeqDisableFlag != 0 {
+			continue
+		}
+		ch := heights[j]
+		if in.Sequence&consensus.SeqTypeFlag != 0 {
+			ah := uint32(0)
+			if ch > 0 {
+				ah = ch - 1
+			}
+			anc := parent.Ancestor(ah)
+			if ch >= height || anc == nil {
+				anc = parent
+			}
+			if t := int64(anc.MedianTimePast()) + int64(in.Sequence&consensus.SeqMask)<<consensus.SeqGranularity - 1; t > minTime {
+				minTime = t
+			}
+		} else if h := int64(ch) + int64(in.Sequence&consensus.SeqMask) - 1; h > minHeight {
+			minHeight = h
+		}
+	}
+	return minHeight < int64(height) && minTime < int64(parent.MedianTimePast())
+}
+
 // buildTx resolves a spec against the current state.  forced, when not nil, is used as the first input
 // (series).  Returns nil when nothing can be built.
 func (r *run) buildTx(ts *TxSpec, cd *cands, forced *coinRef) *built {
@@ -710,7 +828,7 @@ func (r *run) buildTx(ts *TxSpec, cd *cands, forced *coinRef) *built {
 			}
 		}
 		for len(seqs) < len(coins) {
-			seqs = append(seqs, seqTable[mod(sel.Seq, 3)])
+			seqs = append(seqs, r.sequenceFor(sel, coins[len(seqs)]))
 		}
 	}
 	if len(coins) == 0 {
@@ -851,6 +969,17 @@ func (r *run) buildTx(ts *TxSpec, cd *cands, forced *coinRef) *built {
 		tx.Out[i].Value = v
 	}
 	sign()
+	if hasRelativeLock(tx) {
+		hs := make([]uint32, len(coins))
+		for i, c := range coins {
+			hs[i] = r.coinHeight(c.key)
+		}
+		if seqLocksReached(tx, hs, r.s.Tip.Idx) {
+			r.st.label("relative_lock_reached")
+		} else {
+			r.st.label("relative_lock_not_reached")
+		}
+	}
 	b := &built{tx: tx, raw: tx.Serialize(true), id: tx.TxID(), valid: valid && !badScript}
 	if old, ok := r.built[b.id]; ok {
 		return old
@@ -935,6 +1064,14 @@ func (r *run) submit(b *built, path int, cd *cands) {
 	}
 	if !was && inPool(b.id) {
 		r.st.admitted++
+		if hasRelativeLock(b.tx) {
+			r.st.label("relative_locked_tx_admitted")
+			for _, in := range b.tx.In {
+				if _, pooled := cd.byID[in.PrevHash]; pooled && in.Sequence&consensus.SeqDisableFlag == 0 {
+					r.st.label("relative_lock_on_pooled_parent_admitted")
+				}
+			}
+		}
 		if len(conflicts) > 0 {
 			r.st.replaced++
 			if len(conflicts) > 100 {
@@ -1183,6 +1320,14 @@ func (r *run) mine(op Op) error {
 		txs = append(txs, tx)
 	}
 	included := map[[32]byte]bool{}
+	var entryCoins [][]consensus.Coin
+	coinHeights := func(coins []consensus.Coin) []uint32 {
+		hs := make([]uint32, len(coins))
+		for i, c := range coins {
+			hs[i] = c.Height
+		}
+		return hs
+	}
 	for i, raw := range raws {
 		tx, n, err := wire.DecodeTx(raw)
 		if err != nil || n != len(raw) {
@@ -1209,6 +1354,7 @@ func (r *run) mine(op Op) error {
 		} else {
 			add(tx, nil) // the reference cannot resolve an input: the block will be refused and reported below
 		}
+		entryCoins = append(entryCoins, coins)
 		included[tx.TxID()] = true
 	}
 	fromPool := len(txs)
@@ -1234,6 +1380,9 @@ func (r *run) mine(op Op) error {
 				}
 			}
 			if !consensus.IsFinalTx(b.tx, height, int64(parent.Idx.MedianTimePast())) || consensus.CheckTransaction(b.tx) != nil {
+				return false
+			}
+			if !seqLocksReached(b.tx, coinHeights(coins), parent.Idx) {
 				return false
 			}
 			var vin, vout uint64
@@ -1323,7 +1472,12 @@ func (r *run) mine(op Op) error {
 		}
 		detail := ""
 		timeLockedOnly := true
+		offenders := 0
 		for i, tx := range txs[:fromPool] {
+			if entryCoins[i] != nil && !seqLocksReached(tx, coinHeights(entryCoins[i]), parent.Idx) {
+				offenders++
+				detail += fmt.Sprintf("; entry %d (%x): a relative lock (BIP68) is not reached at height %d / median time %d", i, revHex(tx.TxID()), height, parent.Idx.MedianTimePast())
+			}
 			if e := consensus.CheckTransaction(tx); e != nil {
 				detail += fmt.Sprintf("; entry %d (%x): %v", i, revHex(tx.TxID()), e)
 			}
@@ -1331,11 +1485,12 @@ func (r *run) mine(op Op) error {
 				if tx.LockTime < consensus.LocktimeThreshold {
 					timeLockedOnly = false
 				}
+				offenders++
 				detail += fmt.Sprintf("; entry %d (%x) is not final at height %d / median time %d (lock time %d)", i, revHex(tx.TxID()), height, parent.Idx.MedianTimePast(), tx.LockTime)
 			}
 		}
 		msg := fmt.Sprintf("%s was refused by the node's block validation (the reference refuses it too: %v)%s", what, reason, detail)
-		if reason != nil && reason.Error() == "bad-txns-nonfinal" && timeLockedOnly {
+		if reason != nil && (reason.Error() == "bad-txns-nonfinal" || reason.Error() == "bad-txns-nonfinal (BIP68)") && timeLockedOnly && offenders > 0 {
 			return &refusedNonFinal{msg}
 		}
 		return fmt.Errorf("%s", msg)
